@@ -8,7 +8,7 @@ import coqfmt as cf
 
 RULE = ("cases = configurations (method in neighbor K=1 / neighbor K=2 / bruteforce / montecarlo with default truncation "
         "and without) x (default, grouped, join-like provenance, units NAMED BY STRINGS; datasets with exactly tied distances between differently labelled rows) x (KNN, SGD and random-splitter tree: estimators that "
-        "draw from numpy's GLOBAL generator) x seeds incl. 0; every configuration is scored in 4 FRESH interpreter "
+        "draw from numpy's GLOBAL generator) x (accuracy, ROC-AUC, equalized-odds difference, joint utility) x seeds incl. 0; every configuration is scored in 4 FRESH interpreter "
         "processes (PYTHONHASHSEED 0 / 1 / 4242 / random; different import orders; global numpy and Python generators "
         "seeded and consumed differently) and in-process twice: the BYTES of the score vectors must coincide; "
         "neighbor/bruteforce with other seeds must not change a bit; montecarlo with another seed but the recorded "
@@ -36,7 +36,13 @@ def gen(rng, tier):
              # differently labelled rows (their order must not follow the seed)
              ("neighbor", {}, "named", "knn"), ("bruteforce", {}, "named", "rtree"), ("montecarlo", {"mc_iterations": 6}, "named", "rtree"),
              ("neighbor", {"ties": True}, "default", "knn"), ("neighbor", {"ties": True}, "grouped", "knn"),
-             ("neighbor", {"ties": True}, "named", "knn")]
+             ("neighbor", {"ties": True}, "named", "knn"),
+             # other utilities, with estimators that draw from the global generator (every entry point of a utility that fits
+             # the model must do so from a fixed generator state)
+             ("neighbor", {"utility": "eod"}, "default", "dummy"), ("neighbor", {"utility": "eod"}, "grouped", "rtree"),
+             ("bruteforce", {"utility": "eod"}, "default", "dummy"), ("neighbor", {"utility": "auc"}, "default", "dummy"),
+             ("bruteforce", {"utility": "auc"}, "grouped", "rtree"), ("montecarlo", {"mc_iterations": 5, "utility": "joint"}, "default", "dummy"),
+             ("neighbor", {"utility": "joint"}, "named", "knn")]
     combos = list(fixed)
     if tier == "thorough":
         for method, kw in (("neighbor", {}), ("neighbor", {"nn_k": 2}), ("bruteforce", {}), ("montecarlo", mc_trunc),
@@ -51,11 +57,12 @@ def gen(rng, tier):
     for k, (method, kw, prov, model) in enumerate(combos):
         add = method == "neighbor" and (kw.get("nn_k") == 2 or prov == "join")
         ties = bool(kw.get("ties"))
-        kw = {a: b for a, b in kw.items() if a != "ties"}
-        cases.append({"method": method, "kw": kw, "prov": prov, "model": model, "seed": seeds[k % len(seeds)], "ties": ties,
+        utility = kw.get("utility", "accuracy")
+        kw = {a: b for a, b in kw.items() if a not in ("ties", "utility")}
+        cases.append({"method": method, "kw": kw, "prov": prov, "model": model, "seed": seeds[k % len(seeds)], "ties": ties, "utility": utility,
                       "data_seed": rng.randrange(1 << 20), "classes": 2,
                       # the ADD path (K > 1 or join-like provenance) costs seconds per validation point: keep it small
-                      "n": 4 if add else 6 if method == "bruteforce" else 7, "nv": 2 if add else 5})
+                      "n": 4 if add else 6 if method == "bruteforce" else 7, "nv": 2 if add else 8 if utility == "eod" else 5})
     return cases
 
 
@@ -74,6 +81,7 @@ def run_impl(c):
     from props import rtcommon
     cfg = {k: c[k] for k in ("method", "kw", "prov", "model", "seed", "data_seed", "n", "nv", "classes")}
     cfg["ties"] = bool(c.get("ties"))
+    cfg["utility"] = c.get("utility", "accuracy")
     base1 = rtcommon.score_hex(cfg)
     base2 = rtcommon.score_hex(cfg)
     kids = []
@@ -108,7 +116,7 @@ def distribution(cases, outs):
     from collections import Counter
     failed = Counter(k for o in outs if isinstance(o, dict) and "checks" in o for k, v in o["checks"].items() if not v)
     return {"methods": dict(Counter(c["method"] + json.dumps(c["kw"], sort_keys=True) for c in cases)),
-            "provenance": dict(Counter(c["prov"] for c in cases)), "tied_distance_cases": sum(1 for c in cases if c.get("ties")), "models": dict(Counter(c["model"] for c in cases)),
+            "provenance": dict(Counter(c["prov"] for c in cases)), "utilities": dict(Counter(c.get("utility", "accuracy") for c in cases)), "tied_distance_cases": sum(1 for c in cases if c.get("ties")), "models": dict(Counter(c["model"] for c in cases)),
             "seeds": dict(Counter(c["seed"] for c in cases)), "fresh_processes_per_case": 4, "failed_checks": dict(failed),
             "exceptions": dict(Counter(o["exc"] for o in outs if isinstance(o, dict) and "exc" in o))}
 
